@@ -623,7 +623,7 @@ class _Discovery(_MessageDB):
 
             return None
 
-        for hdr, task in self.discovery_cmds.items():
+        for hdr, task in list(self.discovery_cmds.items()):  # cmds may be added meanwhile
             dt_now = dt.now()
 
             if (msg := find_latest_msg(hdr, task)) and (
